@@ -27,6 +27,12 @@
 (*                            with its positive cache ("sessions": several *)
 (*                            calls in one run; one known deviation)       *)
 (*   node_visitor.py:636      duplicate suppression (number of diagnostics)*)
+(*   signature.py:654-658     "the argument IS the parameter's default" by  *)
+(*                            identity (ImplIsDefault); :2610-2618 bound     *)
+(*                            methods put the receiver in front (self: T);  *)
+(*                            :1378-1388 / :1398-1455 allow_call (NamedTuple)*)
+(*   name_check_visitor.py:2160-2198, :5597-5600  return value inferred     *)
+(*                            from the body of a def without annotation     *)
 (* Assignability of type-variable-free terms is ImplCA of Assign.tla.      *)
 (*                                                                         *)
 (* Ref* operators are the meaning of the property and never mention the    *)
@@ -39,15 +45,17 @@
 EXTENDS Assign
 
 CONSTANTS
-    LitSet,    \* "small" | "full": the literal arguments calls are built from
+    LitSet,    \* "small" | "full" | "dflt" | "fullplus": the literal arguments calls are built from
     MaxPos,    \* most positional arguments given to a *args function (others: one per parameter)
     MaxKw,     \* most keyword arguments per call
     MaxArgs,   \* most arguments per call
-    FnFilter,  \* "all" | "nogeneric3": "nogeneric3" leaves out the three-argument functions (quick tier)
+    FnFilter,  \* "all" | "nogeneric3" (first-built entries without the three-argument functions; quick tier)
+               \* | "new" (the entries of LibNew: defaults / parameter kinds / call forms / returns) | "old" (the others)
     MaxSess,   \* most calls per session (0: no sessions)
-    Shapes,    \* how the arguments are written: {"plain"} f(a, k=b) and/or "star" f(*(a,), **{"k": b})
+    Shapes,    \* how the arguments are written: {"plain"} f(a, k=b) and/or "star" f(*(a,), **{"k": b}),
+               \* "mixed" f(a, *(b,), **{"k": c}) (first positional explicit), "mixedk" f(*(a,), k=b) (keywords explicit)
     FixProtoCache,  \* TRUE: model the repair proposed in proposed/C06-fix-1.diff (cache keyed by both values)
-    Bug        \* "none"; sensitivity self-tests: "varargs_unchecked", "no_inherent_bounds"
+    Bug        \* "none"; sensitivity self-tests: "varargs_unchecked", "no_inherent_bounds", "default_by_equality"
 
 (***************************************************************************)
 (* Terms added to Values.tla                                               *)
@@ -57,13 +65,19 @@ CallT(ps, r) == [k |-> "callable", ps |-> ps, r |-> r]    \* CallableValue: Call
 AnyE == [k |-> "any", src |-> "error"]                    \* AnySource.error
 AnyI == [k |-> "any", src |-> "inference"]                \* AnySource.inference
 Opt(t) == Union(<<t, Known(NONE)>>)
+\* Annotated[t, "meta"] = AnnotatedValue(t, [KnownValue("meta")]) (its can_assign is the inner value's, value.py:2601);
+\* dataclasses.InitVar[t] in a dataclass field = t (annotations.py:469-470)
+AnnT(t) == [k |-> "ann", t |-> t]
+InitVarT(t) == [k |-> "initvar", t |-> t]
+Strip(T) == IF T.k \in {"ann", "initvar"} THEN T.t ELSE T
+NoAnn == [k |-> "noann"]          \* the def has no return annotation
 
 TInt == Typed("int")    TStr == Typed("str")    TFloat == Typed("float")   TBool == Typed("bool")
 TObj == Typed("object")
 
 \* objects outside Values.tla: instances of the library classes K, K2(K), W, D, of the session classes
 \* ItI / ItS, and the helper functions
-XClasses == {"K", "K2", "W", "D", "function", "ItI", "ItS"}
+XClasses == {"K", "K2", "W", "D", "function", "ItI", "ItS", "Box", "WN", "DD", "DK", "NT"}
 IterClasses == {"ItI", "ItS"}       \* user classes with  def __iter__(self) -> Iterator[int] / Iterator[str]  (sessions)
 XSupers(c) == IF c = "K2" THEN {"K2", "K", "object"}                         \* class K2(K)
               ELSE IF c \in IterClasses THEN {c, "Iterable", "object"}       \* structurally an Iterable
@@ -77,6 +91,9 @@ OItS == Obj("ItS", "s")
 Yields(c) == IF c = "ItI" THEN I1 ELSE SA         \* what iterating an instance produces (iter([1]) / iter(["a"]))
 YieldT(c) == IF c = "ItI" THEN Typed("int") ELSE Typed("str")     \* the declared Iterator[...] argument
 FnObj(n) == Obj("function", n)
+F00 == Obj("float", "0.0")                  \* 0 == False == 0.0 in Python, three different KnownValues (value.py:622-627)
+\* dataclasses._HAS_DEFAULT_FACTORY: the default of a field(default_factory=list) parameter in the generated __init__
+FACTORY == Obj("dcfactory", "list")
 
 RECURSIVE HasTV(_)
 HasTV(T) ==
@@ -121,6 +138,8 @@ CLS == P("cls", AnyT)
 \*   "callc" is[1](o)                            "swapped" (is[1][1], is[1][0])
 \*   "elem_list" / "elem_tuple" / "elem_seq"  is[1][0] if isinstance(is[1], list / tuple / Sequence) and is[1] else is[2]
 \*   "new" (constructors) the new instance o
+\*   "self" return self (o = the receiver)       "raise" raise ValueError("x")  (the call never returns)
+\*   "newnt" (NamedTuple) the new instance NT(<every parameter>)
 Body(k, is, o) == [k |-> k, is |-> is, o |-> o]
 BP(i) == Body("param", <<i>>, NONE)
 
@@ -128,9 +147,10 @@ BP(i) == Body("param", <<i>>, NONE)
 \* cls   "" or the class the def lives in;  name = name of the def
 \* mk    "plain" | "method" | "classmethod" | "staticmethod" | "init" | "dcinit" (dataclass-generated __init__)
 \*       | "inherited" (class K2(K): pass -- the constructor is K.__init__) | "new" (__new__(cls, ...))
+\*       | "selfmethod" (def m(self: T, ...) -> ...T...) | "ntnew" (class NT(NamedTuple): the generated __new__)
 \* recv  how the callee is written: "fn" name(...) | "inst" k0.name(...) (k0 a module-level instance)
-\*       | "tinst" K(1).name(...) | "cls" K.name(...) | "ctor" K(...)
-\* decl  parameters as written in the def; ret = declared return; tvs = type variables of the signature
+\*       | "tinst" K(1).name(...) | "cls" K.name(...) | "ctor" K(...) | "unbound" K.name(k0, ...)
+\* decl  parameters as written in the def; ret = declared return (NoAnn: none); tvs = type variables of the signature
 \* kws   keyword names the generator may pass
 Fn(id, cls, name, mk, recv, decl, ret, body, tvs, kws) ==
     [id |-> id, cls |-> cls, name |-> name, mk |-> mk, recv |-> recv, decl |-> decl, ret |-> ret,
@@ -139,7 +159,7 @@ F1(id, ann, ret) == Fn(id, "", id, "plain", "fn", <<P("x", ann)>>, ret, BP(1), <
 G(id, decl, ret, body, tvs) == Fn(id, "", id, "plain", "fn", decl, ret, body, tvs, << >>)
 
 LInt == Generic("list", <<TInt>>)
-Lib == <<
+LibOld == <<
     \* ---- plain
     F1("f_int", TInt, TInt),
     F1("f_float", TFloat, TFloat),
@@ -234,18 +254,95 @@ Lib == <<
     Fn("D", "D", "__init__", "dcinit", "ctor", <<SELF, P("x", TInt), PD("y", TStr, SA)>>, Known(NONE), Body("new", << >>, DI),
        << >>, <<"y">>) >>
 
+\* ---- the parameter-level mechanisms of _check_param_type_compatibility / check_call_with_bound_args /
+\* get_default_return / bind_self the first-built library did not reach
+PF(id, decl, ret, body, tvs, kws) == Fn(id, "", id, "plain", "fn", decl, ret, body, tvs, kws)
+KO(n, ann, dflt) == Param(n, "ko", ann, dflt)
+TDa == TD(<<Ent("a", TRUE, TInt)>>)                 \* class TD(TypedDict): a: int
+TObj2 == SeqT("tuple", <<One(TObj), One(TObj)>>)
+LibNew == <<
+    \* ---- (1) defaults inside / outside the annotation; positional-or-keyword and keyword-only
+    PF("d_none", <<PD("x", TInt, NONE)>>, Opt(TInt), BP(1), << >>, <<"x">>),                 \* def d_none(x: int = None)
+    PF("d_str0", <<PD("name", TStr, I0)>>, TObj, BP(1), << >>, <<"name">>),                  \* name: str = 0
+    PF("d_flag", <<PD("flag", TBool, I1)>>, TInt, BP(1), << >>, << >>),                      \* flag: bool = 1
+    PF("d_xs", <<PD("xs", LInt, Cont("tuple", << >>))>>, Generic("Sequence", <<TInt>>), BP(1), << >>, <<"xs">>),   \* xs: list[int] = ()
+    PF("d_mix", <<PD("a", TStr, I0), PD("b", TInt, SE)>>, TObj2, Body("tuple", <<1, 2>>, NONE), << >>, <<"a", "b">>),
+    PF("d_ok", <<PD("x", TInt, I0), PD("s", TStr, SE)>>, SeqT("tuple", <<One(TInt), One(TStr)>>), Body("tuple", <<1, 2>>, NONE),
+       << >>, <<"x", "s">>),                                                                  \* well-typed defaults 0 and ""
+    PF("d_ko", <<KO("name", TStr, <<I0>>)>>, TObj, BP(1), << >>, <<"name">>),                \* def d_ko(*, name: str = 0)
+    PF("d_ko2", <<P("x", TInt), KO("k", TInt, <<NONE>>)>>, Opt(TInt), BP(2), << >>, <<"k">>),
+    \* ---- generic functions: an ill-typed default in the bounds-collecting pass, a type variable only a default reaches,
+    \*      a type variable no parameter mentions
+    PF("g_def", <<P("x", TV("T")), PD("d", Generic("list", <<TV("T")>>), NONE)>>, TV("T"), BP(1), <<"T">>, <<"d">>),
+    PF("pick", <<P("x", TV("T")), PD("d", Opt(TV("S")), NONE)>>, Opt(TV("S")), BP(2), <<"T", "S">>, <<"d">>),
+    PF("mk_empty", << >>, Generic("list", <<TV("T")>>), Body("list", << >>, NONE), <<"T">>, << >>),
+    \* ---- (2) parameter types of the shared universe the library lacked; typed *args of a union type
+    F1("f_type", SubclassT(Typed("A")), SubclassT(Typed("A"))),                               \* x: type[A]
+    F1("f_td", TDa, TObj),
+    F1("f_ann", AnnT(TInt), TInt),                                                            \* x: Annotated[int, "meta"]
+    F1("f_lit2", Union(<<Known(I0), Known(SA)>>), TObj),                                      \* x: Literal[0, "a"]
+    PF("va_opt", <<Param("args", "va", Opt(TInt), << >>)>>, Generic("tuple", <<Opt(TInt)>>), BP(1), << >>, << >>),
+    \* ---- (3) call forms, defaults in methods and constructors, self-typed methods, dataclass fields, NamedTuple
+    Fn("K.meth(k0)", "K", "meth", "method", "unbound", <<SELF, P("x", TInt)>>, TInt, BP(1), << >>, <<"x">>),
+    Fn("k0.dmeth", "K", "dmeth", "method", "inst", <<SELF, PD("x", TInt, NONE)>>, Opt(TInt), BP(1), << >>, <<"x">>),
+    Fn("K.dmeth(k0)", "K", "dmeth", "method", "unbound", <<SELF, PD("x", TInt, NONE)>>, Opt(TInt), BP(1), << >>, <<"x">>),
+    Fn("K.cdef", "K", "cdef", "classmethod", "cls", <<CLS, PD("x", TStr, I0)>>, TObj, BP(1), << >>, <<"x">>),
+    Fn("K.sdef", "K", "sdef", "staticmethod", "cls", <<PD("x", TInt, NONE)>>, Opt(TInt), BP(1), << >>, <<"x">>),
+    Fn("k0.me", "K", "me", "selfmethod", "inst", <<P("self", TV("T"))>>, TV("T"), Body("self", << >>, KI), <<"T">>, << >>),
+    Fn("K(1).me", "K", "me", "selfmethod", "tinst", <<P("self", TV("T"))>>, TV("T"), Body("self", << >>, KI), <<"T">>, << >>),
+    Fn("k0.me2", "K", "me2", "selfmethod", "inst", <<P("self", TV("T")), P("x", TInt)>>, TV("T"),
+       Body("self", << >>, KI), <<"T">>, <<"x">>),
+    Fn("K(1).me2", "K", "me2", "selfmethod", "tinst", <<P("self", TV("T")), P("x", TInt)>>, TV("T"),
+       Body("self", << >>, KI), <<"T">>, <<"x">>),
+    Fn("Box", "Box", "__init__", "init", "ctor", <<SELF, PD("label", TStr, I0)>>, Known(NONE), Body("new", << >>, Obj("Box", "box")),
+       << >>, <<"label">>),
+    Fn("WN", "WN", "__new__", "new", "ctor", <<CLS, PD("x", TInt, NONE)>>, Typed("WN"), Body("new", << >>, Obj("WN", "wn")),
+       << >>, <<"x">>),
+    \* @dataclass class DD: x: int = None; ys: list[int] = field(default_factory=list); iv: InitVar[int] = 0
+    Fn("DD", "DD", "__init__", "dcinit", "ctor",
+       <<SELF, PD("x", TInt, NONE), PD("ys", LInt, FACTORY), PD("iv", InitVarT(TInt), I0)>>, Known(NONE),
+       Body("new", << >>, Obj("DD", "dd")), << >>, <<"x", "iv">>),
+    \* @dataclass(kw_only=True) class DK: x: int; y: str = 0
+    Fn("DK", "DK", "__init__", "dcinit", "ctor", <<SELF, KO("x", TInt, << >>), KO("y", TStr, <<I0>>)>>, Known(NONE),
+       Body("new", << >>, Obj("DK", "dk")), << >>, <<"x", "y">>),
+    \* class NT(NamedTuple): x: int; y: str = "a"
+    Fn("NT", "NT", "__new__", "ntnew", "ctor", <<CLS, P("x", TInt), PD("y", TStr, SA)>>, Typed("NT"), Body("newnt", << >>, NONE),
+       << >>, <<"y">>),
+    \* ---- (4) returns: no annotation (the visitor's own inference from the body), -> None, -> NoReturn
+    PF("noann", <<P("x", TInt)>>, NoAnn, BP(1), << >>, << >>),
+    PF("noann_c", <<P("x", TInt)>>, NoAnn, Body("const", << >>, SA), << >>, << >>),
+    PF("p_none", <<P("x", TInt)>>, Known(NONE), Body("const", << >>, NONE), << >>, << >>),
+    PF("never", <<P("x", TInt)>>, Never, Body("raise", << >>, NONE), << >>, << >>) >>
+Lib == LibOld \o LibNew
+NewIds == {LibNew[i].id : i \in 1..Len(LibNew)}
+
 LibSet == {Lib[i] : i \in 1..Len(Lib)}
 ThreeArg == {"f_3", "f_vakw"}
-ActiveFns == IF FnFilter = "all" THEN LibSet ELSE {f \in LibSet : f.id \notin ThreeArg}
+ActiveFns == CASE FnFilter = "all" -> LibSet
+               [] FnFilter = "new" -> {f \in LibSet : f.id \in NewIds}
+               [] FnFilter = "old" -> {f \in LibSet : f.id \notin NewIds}
+               [] OTHER -> {f \in LibSet : f.id \notin ThreeArg \cup NewIds}       \* "nogeneric3"
 FnOf(id) == CHOOSE f \in LibSet : f.id = id
 
 \* literal arguments (OA / OB are written A() / B(): expressions whose static value is their type)
 LitsSmall == <<I1, BT, SA, NONE, F15, Cont("list", <<I1>>), Cont("tuple", <<I1, SA>>), OA>>
 LitsFull == LitsSmall \o <<RED, OB, Cont("list", << >>), Cont("list", <<I1, SA>>), Cont("dict", <<KV(SA, I1)>>),
                            Cont("set", <<I1>>), Cont("tuple", << >>)>>
-Lits == IF LitSet = "small" THEN LitsSmall ELSE LitsFull
+\* the menu of the defaults slice: every default of LibNew, the values equal to one of them in Python without being the
+\* same KnownValue (0 / False / 0.0, 1 / True), and well-typed values
+LitsDflt == <<I0, BF, F00, SE, NONE, Cont("tuple", << >>), I1, BT, SA, Cont("list", <<I1>>), OA>>
+LitsFullPlus == LitsFull \o <<I0, BF, F00, SE>>
+Lits == CASE LitSet = "small" -> LitsSmall [] LitSet = "dflt" -> LitsDflt [] LitSet = "fullplus" -> LitsFullPlus [] OTHER -> LitsFull
 \* what is passed where a Callable is declared: every helper function and one non-callable literal
 CallableArgs == <<FnObj("i2s"), FnObj("o2i"), FnObj("s2s"), I1>>
+\* ... where type[A] is declared: class objects (written A, B, int), an instance, a literal
+ClassArgs == <<ClassObj("A"), ClassObj("B"), ClassObj("int"), OA, I1>>
+\* ... where the TypedDict {a: int} is declared: dict displays with / without the key, a wrong value type, an undeclared
+\* key, a non-string key; a literal that is no dict
+TDArgs == <<Cont("dict", <<KV(SA, I1)>>), Cont("dict", <<KV(SA, SA)>>), Cont("dict", << >>),
+            Cont("dict", <<KV(SA, I1), KV(SB, SA)>>), Cont("dict", <<KV(SB, I1)>>), Cont("dict", <<KV(I1, SA)>>), I1>>
+ArgChoices(ann) == CASE ann.k = "callable" -> CallableArgs [] ann.k = "subclass" -> ClassArgs
+                     [] ann.k = "typeddict" -> TDArgs [] OTHER -> Lits
 
 (***************************************************************************)
 (* Calls.  case = [fn |-> id, shape |-> "plain" | "star",                   *)
@@ -254,9 +351,7 @@ CallableArgs == <<FnObj("i2s"), FnObj("o2i"), FnObj("s2s"), I1>>
 \* arg_spec.py:917-933 (constructors: make_bound_method + get_signature drop `self`; the declared
 \* `-> None` of __init__ is replaced by TypedValue(cls), :870 / :914), signature.py:1929 bind_self
 \* (methods looked up on an instance or class; staticmethods keep every parameter)
-ImplSigParams(fn) ==
-    IF fn.mk \in {"method", "classmethod", "init", "dcinit", "inherited", "new"} THEN Tail(fn.decl) ELSE fn.decl
-ImplSigRet(fn) == IF fn.recv = "ctor" THEN Typed(fn.cls) ELSE fn.ret
+\* (ImplSigParams / ImplSigRet are defined with Impl part 4 below: they need substitute_typevars)
 
 KwNames(call) == {call.kw[j].name : j \in 1..Len(call.kw)}
 KwObj(call, n) == (CHOOSE e \in {call.kw[j] : j \in 1..Len(call.kw)} : e.name = n).o
@@ -311,7 +406,8 @@ SubT(S, T) == HasAny(S) \/ HasAny(T) \/ \A o \in Objects : MemberX(o, S) => Memb
 \* Member of Values.tla, extended to the library classes and to functions: a function belongs to
 \* Callable[[P], R] when it accepts every member of P and everything it returns is a member of R
 MemberX(o, T) ==
-    IF T.k = "any" THEN TRUE
+    IF T.k \in {"ann", "initvar"} THEN MemberX(o, T.t)      \* Annotated[t, ...] and InitVar[t] denote t
+    ELSE IF T.k = "any" THEN TRUE
     ELSE IF T.k = "union" THEN \E i \in 1..Len(T.ms) : MemberX(o, T.ms[i])
     ELSE IF T.k = "callable"
          THEN o.c = "function" /\ Len(T.ps) = 1 /\ SubT(T.ps[1], Helper(o.v).p) /\ SubT(Helper(o.v).r, T.r)
@@ -344,13 +440,16 @@ Sigmas(fn) == [SeqRange(fn.tvs) -> UNION {Cands(n) : n \in SeqRange(fn.tvs)}]
 Admissible(fn, sg) == \A n \in SeqRange(fn.tvs) : sg[n] \in Cands(n)
 
 ArgsFit(ps, call, sg) == \A e \in SeqRange(RefExplicit(ps, call)) : MemberX(e.o, RSubst(e.ann, sg))
+\* the receiver of a method whose first parameter is annotated (`self: T`) is an argument too: the instance the
+\* method is called on (an instance of the class the def lives in) belongs to the declared type of `self`
+RefRecvFits(fn, sg) == fn.mk = "selfmethod" => MemberX(Obj(fn.cls, "k"), RSubst(fn.decl[1].ann, sg))
 \* some statically known argument does not belong to the declared type of its parameter -- for a
 \* generic function: under no admissible value of the type variables do all arguments belong
-RefBad(fn, call) == ~\E sg \in Sigmas(fn) : Admissible(fn, sg) /\ ArgsFit(RefParams(fn), call, sg)
+RefBad(fn, call) == ~\E sg \in Sigmas(fn) : Admissible(fn, sg) /\ ArgsFit(RefParams(fn), call, sg) /\ RefRecvFits(fn, sg)
 
 \* the solution the checker inferred (a sequence aligned with fn.tvs) makes every argument acceptable
 SigmaFn(fn, sols) == [n \in SeqRange(fn.tvs) |-> sols[CHOOSE j \in 1..Len(fn.tvs) : fn.tvs[j] = n]]
-RefSolutionFits(fn, call, sols) == ArgsFit(RefParams(fn), call, SigmaFn(fn, sols))
+RefSolutionFits(fn, call, sols) == ArgsFit(RefParams(fn), call, SigmaFn(fn, sols)) /\ RefRecvFits(fn, SigmaFn(fn, sols))
 
 (***************************************************************************)
 (* Ref: what the call returns when executed (model of the library bodies;  *)
@@ -367,6 +466,9 @@ RefResult(fn, call) ==
     IN CASE b.k = "param" -> Ret(a(1))
          [] b.k = "const" -> Ret(b.o)
          [] b.k = "new" -> Ret(b.o)
+         [] b.k = "self" -> Ret(b.o)
+         [] b.k = "raise" -> Raises
+         [] b.k = "newnt" -> Ret(Cont("NT", [i \in 1..Len(ps) |-> RefBoundObj(ps, call, i)]))
          [] b.k \in {"tuple", "list"} -> Ret(Cont(b.k, [i \in 1..Len(b.is) |-> a(i)]))
          [] b.k = "dict" -> IF Unhashable(a(1)) THEN Raises ELSE Ret(Cont("dict", <<KV(a(1), a(2))>>))
          [] b.k = "call" -> IF a(1).c # "function" THEN Raises
@@ -408,7 +510,7 @@ ImplBoundAt(ps, call, i) ==
               \* types]) (value.py:1441-1453) as far as can_assign of dict[K, V] is concerned
               \* (a **{...} literal is split into keywords in REVERSED order, signature.py:2229)
               LET ex0 == SelectSeq(call.kw, LAMBDA e : e.name \notin ParamNames(ps))
-                  extra == IF call.shape = "star" THEN [j \in 1..Len(ex0) |-> ex0[Len(ex0) + 1 - j]] ELSE ex0
+                  extra == IF call.shape \in {"star", "mixed"} THEN [j \in 1..Len(ex0) |-> ex0[Len(ex0) + 1 - j]] ELSE ex0
               IN Bnd(Generic("dict", <<TStr, IF extra = << >> THEN AnyU
                                              ELSE ImplUnite([j \in 1..Len(extra) |-> ImplArgVal(extra[j].o)])>>), "arg")
 
@@ -495,12 +597,13 @@ Fail == R(FALSE, << >>)
 \* type-variable-free annotation against an argument value.  A Callable accepts a function through
 \* Signature.can_assign (return first: signature.py:1475-1481, then the positional parameter: :1505-1523);
 \* anything that has no signature is "not a callable type" (value.py:1769-1771)
-ImplCAX(A, B) ==
-    IF A.k = "callable"
-    THEN /\ B.k = "known" /\ B.o.c = "function" /\ Len(A.ps) = 1
-         /\ ImplCA(A.r, Helper(B.o.v).r, FALSE)
-         /\ ImplCA(Helper(B.o.v).p, A.ps[1], FALSE)
-    ELSE ImplCA(A, B, FALSE)
+ImplCAX(A0, B) ==
+    LET A == Strip(A0)            \* AnnotatedValue.can_assign -> the inner value's (value.py:2601); InitVar[t] is t
+    IN IF A.k = "callable"
+       THEN /\ B.k = "known" /\ B.o.c = "function" /\ Len(A.ps) = 1
+            /\ ImplCA(A.r, Helper(B.o.v).r, FALSE)
+            /\ ImplCA(Helper(B.o.v).p, A.ps[1], FALSE)
+       ELSE ImplCA(A, B, FALSE)
 
 \* the parameter type PT of a function passed for Callable[[M], ...] is asked to accept M (signature.py:1516)
 ImplParamAccepts(PT, M) ==
@@ -569,6 +672,36 @@ CSubst(v, names, vals) ==
       [] OTHER -> v
 
 (***************************************************************************)
+(* Impl: the signature that is called (constructors, bound methods)        *)
+(***************************************************************************)
+\* A bound method is checked by BoundMethodSignature.check_call (signature.py:2610-2618): the receiver is put in
+\* front of the arguments and the UNBOUND signature is checked, so the receiver fills the first parameter.  For an
+\* unannotated `self` / `cls` nothing is checked (signature.py:646): the parameters that matter are the others.
+\* For `self: T` (mk "selfmethod") the receiver's value is an argument like any other: it contributes the lower bound
+\* of T in the bounds-collecting pass -- KnownValue(k0) for the module-level instance k0, TypedValue(K) for K(1).
+\* A method fetched from the CLASS and given its receiver explicitly, K.meth(k0, ...) (recv "unbound"), is the plain
+\* function: its first parameter is filled by the k0 the harness writes in front.
+ImplSelfVal(fn) == IF fn.recv = "inst" THEN Known(KI) ELSE Typed(fn.cls)
+ImplSigParams(fn) ==
+    IF fn.mk \in {"method", "classmethod", "init", "dcinit", "inherited", "new", "ntnew", "selfmethod"} THEN Tail(fn.decl)
+    ELSE fn.decl
+\* the bounds the receiver of a `self: T` method contributes (TypeVarValue.can_assign value.py:2192-2199; first
+\* parameter, hence first in unify_bounds_maps).  In the second pass the receiver is checked against T := its own
+\* value, which succeeds (can_assign is reflexive: Assign!InvRefl, property C04).
+ImplRecvBounds(fn) ==
+    IF fn.mk = "selfmethod" THEN <<Lb(fn.decl[1].ann.n, ImplSelfVal(fn))>> \o ImplInherent(fn.decl[1].ann.n) ELSE << >>
+\* A def without a return annotation: the signature's return value is not used; the visitor substitutes the value it
+\* inferred for the body when it visited the def (name_check_visitor.py:2160-2198 _set_argspec_to_retval, :5597-5600),
+\* diagnosed call or not.  Inside the body a parameter has its declared type, a constant is a KnownValue.
+ImplLocalRet(fn) ==
+    CASE fn.body.k = "param" -> Strip(ImplSigParams(fn)[fn.body.is[1]].ann)
+      [] fn.body.k = "const" -> Known(fn.body.o)
+ImplSigRet(fn) ==
+    IF fn.recv = "ctor" THEN Typed(fn.cls)                                       \* arg_spec.py:866-870
+    ELSE IF fn.ret.k = "noann" THEN ImplLocalRet(fn)
+    ELSE fn.ret
+
+(***************************************************************************)
 (* Impl, part 4: Signature.check_call_with_bound_args                      *)
 (*   result = [nia  number of incompatible_argument diagnostics,           *)
 (*             nic  number of incompatible_call diagnostics,               *)
@@ -585,9 +718,17 @@ ImplParamAnn(p) ==
       [] p.kind = "vk" -> Generic("dict", <<TStr, p.ann>>)
       [] OTHER -> p.ann
 
-\* _check_param_type_compatibility (signature.py:645-675): an argument that IS the default is never an error
+\* _check_param_type_compatibility (signature.py:646-676): an argument that IS the default is never an error.
+\* "Is the default" is object identity (:654, :657 `composite.value is param.default`): bind_arguments binds an omitted
+\* parameter to Composite(param.default), the very object of the signature (:855, :944, :986), whereas an argument
+\* the caller WRITES is a new Value object even when it equals the default (KnownValue.__eq__ is structural,
+\* value.py:622-627) and is checked like any other argument.
+\* (Bug = "default_by_equality": the sensitivity self-test -- identity replaced by equality with the default)
+ImplIsDefault(p, b) ==
+    \/ b.src = "default"
+    \/ Bug = "default_by_equality" /\ p.dflt # << >> /\ b.val.k = "known" /\ KVEq(b.val.o, p.dflt[1])
 ImplParamOK(p, ann, b) ==
-    \/ b.src = "default"                                         \* :653-657
+    \/ ImplIsDefault(p, b)                                       \* :654-658
     \/ Bug = "varargs_unchecked" /\ p.kind = "va"
     \/ ImplCAX(ann, b.val)
 
@@ -597,9 +738,24 @@ ImplParamOK(p, ann, b) ==
 \* (node_visitor.py:636 seen_errors is keyed by (node, code))
 \* The members of a *(...) / **{...} literal are split into separate arguments by preprocess_args
 \* (signature.py:2037-2041, :2069-2090) as composites without a node: every error lands on the call node.
-ImplNDiag(ps, bad, shape) ==
-    IF shape = "star" THEN (IF bad = {} THEN 0 ELSE 1)
-    ELSE Cardinality({i \in bad : ps[i].kind \in {"pk", "ko"}}) + (IF \E i \in bad : ps[i].kind \in {"va", "vk"} THEN 1 ELSE 0)
+\* In the mixed shapes only the arguments written on their own keep a node: the first positional of
+\* f(a, *(b,), **{"k": c}) ("mixed"), the keywords of f(*(a,), k=b) ("mixedk").
+ImplOwnNode(ps, call, i) ==
+    /\ ps[i].kind \in {"pk", "ko"}
+    /\ IF ps[i].kind = "pk" /\ i <= Len(call.pos)
+       THEN call.shape = "plain" \/ (call.shape = "mixed" /\ i = 1)     \* bound from a positional argument
+       ELSE call.shape \in {"plain", "mixedk"}                          \* bound from a keyword
+ImplNDiag(ps, bad, call) ==
+    Cardinality({i \in bad : ImplOwnNode(ps, call, i)}) + (IF \E i \in bad : ~ImplOwnNode(ps, call, i) THEN 1 ELSE 0)
+
+\* Signature._maybe_perform_call (signature.py:1378-1388, :1398-1455).  A NamedTuple class is a tuple subclass, hence
+\* "safe to instantiate" (arg_spec.py:766-768 allow_call): when every argument is a KnownValue the checker really
+\* calls the class and the call's value is KnownValue(result) -- diagnosed or not (:1378 is outside `if not
+\* had_error`).  An argument such as A() (a TypedValue) prevents the call (:1408-1410).
+ImplPerformed(fn, call) ==
+    /\ fn.mk = "ntnew"
+    /\ \A i \in 1..Len(call.pos) : ~TypedExpr(call.pos[i])
+    /\ \A j \in 1..Len(call.kw) : ~TypedExpr(call.kw[j].o)
 
 ImplCall(fn, call) ==
     LET ps == ImplSigParams(fn)
@@ -609,17 +765,19 @@ ImplCall(fn, call) ==
         n == Len(fn.tvs)
         \* get_default_return (signature.py:1152-1157)
         dflt == IF HasTV(ret) THEN CSubst(ret, fn.tvs, [j \in 1..n |-> AnyE]) ELSE ret
-    IN IF n = 0                                                              \* signature.py:1256
-       THEN Res(ImplNDiag(ps, {i \in 1..Len(ps) : ~ImplParamOK(ps[i], an[i], bd[i])}, call.shape), 0, ret, FALSE, << >>)   \* :1287-1300
+    IN IF n = 0                                                              \* signature.py:1271
+       THEN Res(ImplNDiag(ps, {i \in 1..Len(ps) : ~ImplParamOK(ps[i], an[i], bd[i])}, call), 0,    \* :1302-1315
+                IF ImplPerformed(fn, call) THEN Known(Cont("NT", [i \in 1..Len(ps) |-> bd[i].val.o])) ELSE ret,
+                FALSE, << >>)
        ELSE LET p1 == [i \in 1..Len(ps) |->                                  \* pass 1, :1258-1268
                          IF ~HasTV(an[i]) THEN R(TRUE, << >>)
                          ELSE LET r == ImplCAB(an[i], bd[i].val)
-                              IN IF ~r.ok /\ bd[i].src = "default" THEN R(TRUE, << >>) ELSE r]
+                              IN IF ~r.ok /\ ImplIsDefault(ps[i], bd[i]) THEN R(TRUE, << >>) ELSE r]   \* :657-658
             IN IF \E i \in 1..Len(ps) : ~p1[i].ok
                THEN Res(1, 0, dflt, FALSE, << >>)                            \* :1265-1266 (first failure only)
                ELSE LET RECURSIVE cat(_)
                         cat(i) == IF i > Len(ps) THEN << >> ELSE p1[i].bs \o cat(i + 1)   \* unify_bounds_maps value.py:2786
-                        allbs == cat(1)
+                        allbs == ImplRecvBounds(fn) \o cat(1)
                         solve(tv) == LET bs == SelectSeq(allbs, LAMBDA b : b.tv = tv)
                                      IN IF bs = << >> THEN Solved(AnyG)      \* typevar.py:40
                                         ELSE ImplSolve(bs)
@@ -628,7 +786,7 @@ ImplCall(fn, call) ==
                     IN IF \E j \in 1..n : ~sols[j].ok
                        THEN Res(0, 1, dflt, TRUE, sg)                        \* :1274-1280 "Cannot resolve type variables"
                        ELSE Res(ImplNDiag(ps, {i \in 1..Len(ps) :            \* pass 2, :1287-1300
-                                               ~ImplParamOK(ps[i], CSubst(an[i], fn.tvs, sg), bd[i])}, call.shape),
+                                               ~ImplParamOK(ps[i], CSubst(an[i], fn.tvs, sg), bd[i])}, call),
                                 0,
                                 IF HasTV(ret) THEN CSubst(ret, fn.tvs, sg) ELSE ret,    \* :1281-1282
                                 TRUE, sg)
@@ -743,7 +901,7 @@ ChooseFn ==
     /\ stage' = "args" /\ UNCHANGED <<ta, tb, ob>>
 
 NArgs(c) == Len(c.pos) + Len(c.kw)
-PosChoices(ps, i) == IF i <= NPk(ps) /\ ps[i].ann.k = "callable" THEN CallableArgs ELSE Lits
+PosChoices(ps, i) == IF i <= NPk(ps) THEN ArgChoices(ps[i].ann) ELSE Lits
 AddPos ==
     /\ stage = "args" /\ case.kw = << >> /\ NArgs(case) < MaxArgs
     /\ LET ps == RefParams(FnOf(case.fn))
@@ -765,6 +923,8 @@ AddKw ==
 Finish ==
     /\ stage = "args" /\ RefBinds(RefParams(FnOf(case.fn)), case)
     /\ case.shape = "star" => NArgs(case) >= 1
+    /\ case.shape = "mixed" => (Len(case.pos) >= 1 /\ NArgs(case) >= 2)
+    /\ case.shape = "mixedk" => (Len(case.pos) >= 1 /\ Len(case.kw) >= 1)
     /\ stage' = "done" /\ UNCHANGED <<ta, tb, ob, case>>
 
 \* ---- sessions: stage "fn" -> "sess" -> "sdone"; case = [sess |-> <<distinct indices into SessCalls>>]
